@@ -1,5 +1,6 @@
 import YatimlModel.Lemmas.RoundTrip
 import YatimlModel.Model.Represent
+import YatimlModel.Lemmas.IntText
 /-!
 # C05 — the round trip at node level
 
@@ -43,6 +44,21 @@ theorem C05_scalars_described (env : Env) (tbl : List Entry) (fuel : Nat) (rt : 
   cases b
   · exact RTcore.bool false "false" _ (by decide)
   · exact RTcore.bool true "true" _ (by decide)
+
+/-- **integers**: the decimal text `represent_int` writes is read back by `construct_yaml_int` as the same
+integer, for every integer (`Lemmas/IntText.constructInt_int`: sign, no leading zero, no `_`, no `:`, base
+10), so a represented int is a node of the described shape -/
+theorem C05_ints_described (env : Env) (tbl : List Entry) (fuel : Nat) (rt : Ty → PyVal → Node → Prop) (i : Int) :
+    RTcore env tbl fuel rt .int (.scalar (.int i)) (representScalar (.int i)) :=
+  RTcore.int i (toString i) _ (constructInt_int i)
+
+/-- an integer loads back as that integer when an `int` is expected -/
+theorem C05_int_roundtrip (env : Env) (tbl : List Entry) (fuel : Nat) (i : Int) :
+    ∃ calls trace processed,
+      loadNode env tbl (fuel + 1) (representScalar (.int i)) .int = .ok ⟨.scalar (.int i), calls, trace, processed⟩ := by
+  apply RT_load
+  refine ⟨.int, [okLeaf], ?_, C05_ints_described env tbl fuel _ i⟩
+  simp [recognize, recognizeReq, recScalar, representScalar, recOk]
 
 /-- a string, whatever its text, loads back as that string when a `str` is expected -/
 theorem C05_string_roundtrip (env : Env) (tbl : List Entry) (fuel : Nat) (s : String) :
